@@ -12,12 +12,15 @@
 //	ek=            plain errors.New (default)
 //	ek=canceled    wraps context.Canceled            (errors.Is(err, context.Canceled))
 //	ek=deadline    wraps context.DeadlineExceeded    (errors.Is(err, context.DeadlineExceeded))
+//	ek=eof         wraps io.EOF
+//	ek=value       a struct-valued error without a cause
 //	ek=deep        wraps a wrapper of context.Canceled (two Unwrap steps)
 //	ek=elemctx     wraps sub.Err() of a context private to the element (child of Background, cancelled
 //	               by the user function itself); the pipeline context is untouched
 package lockstep
 
 import (
+	"io"
 	"context"
 	"errors"
 	"strconv"
@@ -45,6 +48,12 @@ func (e *env) failure(x int) error {
 		return elemErr{x, context.DeadlineExceeded}
 	case "deep":
 		return elemErr{x, midErr{context.Canceled}}
+	case "eof":
+		// an error that wraps io.EOF (a reader reporting a truncated record, …): still an error of the element
+		return elemErr{x, io.EOF}
+	case "value":
+		// a value-typed (non-pointer) error: elemErr itself is a struct value; here without a cause
+		return elemErr{x, nil}
 	case "elemctx":
 		// a context private to this element, independent of the pipeline's one
 		sub, cancel := context.WithCancel(context.Background())
